@@ -267,10 +267,6 @@ func canary(s *core.Sess, res *caseResult) *event {
 	if ok, is := r.Ok(); !is || ok.RowsAffected != 1 {
 		return bad("dml", r, "wrong-affected-rows")
 	}
-	r = s.Exec("SELECT v FROM zc.canary WHERE id = 1")
-	if r.Failed() || len(r.Rows) != 1 || r.Rows[0][0] == nil {
-		return bad("readback", r, "wrong-result")
-	}
 	return nil
 }
 
